@@ -94,6 +94,7 @@ def main():
     for i in range(0, len(cases), B):
         d.process(cases[i:i + B])
     found = d.finish()
+    recover_phase(run, bins)
     proof_failure_violation(run, found or run.violations)
     run.cov["rule"] = ("case = (dimension kind 1..4, extents W H D C from a fixed grid of 32 shapes, op list of stores/loads); all-pairs: for every in-bounds "
                        "point p: store at p then load EVERY cell; random store sequences with interleaved loads and a final sweep; out-of-bounds accesses; "
@@ -107,6 +108,69 @@ def main():
                assumptions=["single-threaded use (the unsafe grid's interior mutation through a shared reference is not modelled concurrently)"])
 
 
+def recover_phase(run, bins):
+    """the grid is USED ON after an out-of-bounds access that panicked and was caught (every operation on its own, harness family
+    gridrec): the in-bounds reads must be those of the model on the history with the panicking operations removed (a rejected
+    access changes nothing), the out-of-bounds accesses must panic, and safe and unsafe build must agree"""
+    rng = run.rng
+    n = 1500 if run.thorough else 250
+    cases = []; filt = []; plans = []
+    for _ in range(n):
+        kind = rng.choice([1, 2, 3, 4]); W, H, D, C = rng.choice(SHAPES)
+        lim = min(W, H, D, C)
+        def pt(oob):
+            p = [rng.randrange(0, lim) for _ in range(4)]
+            for a in range(kind, 4): p[a] = 0
+            if oob: p[rng.randrange(0, kind)] = max(W, H, D, C) + rng.randrange(0, 3)
+            return tuple(p)
+        hot = [pt(False) for _ in range(rng.randrange(1, 4))]
+        ops = []; good = []; plan = []
+        for _ in range(rng.randrange(3, 30)):
+            oob = rng.random() < 0.25
+            p = pt(True) if oob else (rng.choice(hot) if rng.random() < 0.7 else pt(False))
+            if rng.random() < 0.5:
+                o = (0, *p, rng.randrange(-10**6, 10**6)); plan.append("S!" if oob else "S")
+            else:
+                o = (1, *p); plan.append("G!" if oob else "G")
+            ops.append(o)
+            if not oob: good.append(o)
+        for q in hot: ops.append((1, *q)); good.append((1, *q)); plan.append("G")
+        cases.append(Case("gridrec", [kind, W, H, D, C], ops, {})); filt.append(Case("grid", [kind, W, H, D, C], good, {})); plans.append(plan)
+    mout = driver_eval([c.line("grid_model_entry") for c in filt])
+    lines = [c.line("gridrec") for c in cases]
+    outs = {}
+    for tag, b in bins.items():
+        rc, o, err = run_lines(b, lines, line_timeout=30)
+        outs[tag] = o + ["<no answer>"] * (len(lines) - len(o))
+    n_ok = 0; n_oob = 0
+    for k, (c, plan) in enumerate(zip(cases, plans)):
+        vals = mout[k].split(); want = []; vi = 0
+        for t in plan:
+            if t == "G": want.append(vals[vi] if vi < len(vals) else "?"); vi += 1
+            elif t == "G!": want.append("-999"); n_oob += 1
+            elif t == "S!": want.append("-998"); n_oob += 1
+        run.cov["evaluations"] += 1
+        bad = [tag for tag in outs if outs[tag][k].split() != want]
+        if not bad:
+            n_ok += 1; continue
+        tag = bad[0]
+        run.violation({"kind": "property-oracle-failed-on-implementation",
+                       "why": f"{tag} build: a grid used on after a caught out-of-bounds panic does not read back what was stored (model = the same history without the rejected accesses; -999 / -998 mark a panicking load / store)",
+                       "harness_line": lines[k], "expected": " ".join(want), "got": outs[tag][k], "build": tag, "recover": True, "case": c.to_json(),
+                       "rerun": "cd /verif && python3 bin/check.py C17 --replay <this file>"})
+        break
+    run.cov["reuse_after_caught_out_of_bounds_panic"] = {"histories": len(cases), "agree": n_ok, "out_of_bounds_accesses": n_oob, "builds": sorted(bins)}
+
+
 def replay(path):
     run = Run("C17"); ensure_driver(); bins = builds(run)
+    import json as _j
+    dj = _j.load(open(path))
+    if dj.get("recover"):
+        rc, o, err = run_lines(bins[dj["build"]], [dj["harness_line"]], line_timeout=30)
+        got = o[0] if o else "<no answer>"
+        print("expected:", dj["expected"]); print("got     :", got)
+        bad = got.split() != dj["expected"].split()
+        print("REPRODUCED" if bad else "not reproduced")
+        return 1 if bad else 0
     return generic_replay(mk_diff(run, bins), path)
